@@ -119,7 +119,7 @@ FUNCS = [
 
 MODULE_CALLS = {"register_type", "register_type_on_first_use", "restricted_number_type", "restricted_string_type", "path_type"}
 MODULE_NAMES = {"_fail_already_registered", "re_range_stop", "re_range_start_stop", "re_range_start_stop_step", "_operators1", "_operators2",
-                "registered_types", "registered_type_handlers", "registration_pending"}
+                "registered_types", "registered_type_handlers", "registration_pending", "arithmetic_deserializer_exceptions"}
 
 
 def _mentions(node, names):
